@@ -84,6 +84,32 @@ TWINS = [("unit", "raw unit"), ("entry (pos < 4)", "raw entry (pos < 4)"), ("uni
          ("unit (pos == 1) entry (pos < 3)", "raw unit (pos == 1) entry (pos < 3)"), ("entry ?root", "raw entry ?root")]
 
 
+# queries on the damaged input: some fail after a few results, some do not reach the damage
+DAMAGED = ["entry parent", "raw entry parent", "entry (pos < 3)", "entry root", "unit", "unit (pos == 0) entry parent", "entry ?root", "entry offset"]
+
+
+def damaged_file():
+    """A two-unit file whose last DIE carries an abbreviation code that its table does not define (libdw reports
+    `invalid DWARF` when the walk gets there).  Built with the generator, then one byte is overwritten."""
+    import elfgen as g, dwread
+    A, D = g.Attr, g.Die
+    units = []
+    for ui in range(2):
+        kids = [D("DW_TAG_subprogram", [A("DW_AT_name", "DW_FORM_string", b"f%d" % ui)], [D("DW_TAG_formal_parameter", [A("DW_AT_name", "DW_FORM_string", b"p")])]),
+                D("DW_TAG_variable", [A("DW_AT_name", "DW_FORM_string", b"v%d" % ui)]), D("DW_TAG_typedef", [A("DW_AT_name", "DW_FORM_string", b"t%d" % ui)])]
+        units.append(g.Unit(g.cu_root(b"d%d.c" % ui, version=4, children=kids), 4, 4))
+    elf = g.ElfFile(units)
+    data = bytearray(elf.tobytes())
+    sec = dwread.ElfReader(bytes(data)).section(".debug_info")
+    if sec is None:
+        return None
+    data[sec.offset + units[1].dies[-1].offset] = 0x7f
+    os.makedirs("/verif/.build/dw", exist_ok=True)
+    path = "/verif/.build/dw/c12-damaged-%d.o" % os.getpid()
+    open(path, "wb").write(bytes(data))
+    return path
+
+
 class Exec:
     __slots__ = ("q", "s")
 
@@ -222,7 +248,7 @@ def run_history(d, hist, execs, ref, inputs, tag, reuse=None):
     return len(cmds), None
 
 
-def combos_for(q, others, dmax, thorough, voc):
+def combos_for(q, others, dmax, thorough, voc, light=False):
     """(executions, deviation bound) sets explored for query q."""
     if voc == "full":
         dmax = 1
@@ -234,6 +260,8 @@ def combos_for(q, others, dmax, thorough, voc):
     ]
     if thorough:
         combos += [([Exec(qa, "s1"), Exec(qa, "s2"), Exec(qa, "s1")], dmax), ([Exec(qa, "s1"), Exec(qa2, "s1"), Exec(qa, "s2")], dmax)]
+    if light:
+        combos = combos[1:]     # quick tier of the auxiliary DWARF corpora: two live result sets at a time
     for o in others:
         combos.append(([Exec(("B", o), "s1"), Exec(qa, "s1")], dmax))
         if thorough:
@@ -263,7 +291,7 @@ def _worker(d, task, extra):
     for sname, (init, prefix, _) in inputs.items():
         d.cmd("mkstack id=%s i=%s p=%s" % (sname, init or "-", drv.hx(prefix)))
     out = {"histories": 0, "steps": 0, "bad": [], "states": []}
-    combos = combos_for(q, others, dmax, extra["thorough"], extra["voc"])
+    combos = combos_for(q, others, dmax, extra["thorough"], extra["voc"], extra.get("light", False))
     seen_states = set()
     for ci, (execs, dm) in enumerate(combos):
         if part is not None and part[0] != ci:
@@ -340,6 +368,8 @@ def replay(case):
         inputs = {k: ("-", v, None) for k, v in case["inputs"].items()}
     if voc == "full":
         f1, f2 = case.get("files", ["/repo/tests/typedef.o", "/repo/tests/nontrivial-types.o"])
+        if case.get("damaged"):
+            f1 = f2 = damaged_file()
         setup = ["open id=d1 path=" + drv.hx(f1), "open id=d2 path=" + drv.hx(f2)]
         inputs = {"s1": ("d1", "", None), "s2": ("d2", "", None)}
     qs = sorted(set(e[1] for e in case["execs"]))
@@ -427,13 +457,30 @@ def main(ctx):
             ttasks += [(a, [c], 1), (c, [a], 1)]
         if thorough:
             ttasks = split_tasks(ttasks, tref, thorough, "full", per_task=3000)
-        for r in common.pmap(ctx, _worker, ttasks, b, "full", setup=setup, extra={"ref": tref, "inputs": tins, "voc": "full", "thorough": thorough}, timeout=120):
+        for r in common.pmap(ctx, _worker, ttasks, b, "full", setup=setup, extra={"ref": tref, "inputs": tins, "voc": "full", "thorough": thorough, "light": not thorough}, timeout=120):
             ctx.count("histories", r["histories"])
             ctx.count("histories_dwarf_twins", r["histories"])
             ctx.count("api_steps", r["steps"])
             ALLSTATES.update(r["states"])
             for key, what, case in r["bad"]:
                 case["files"] = [g1, g2]
+                ctx.violation(key, what, case)
+    # ---- a file whose second unit cannot be walked to its end: executions that fail must not poison later ones
+    bad_path = damaged_file()
+    if bad_path:
+        setup = ["open id=d1 path=" + drv.hx(bad_path), "open id=d2 path=" + drv.hx(bad_path)]
+        bins_, bref = prepare(b, "full", setup, DAMAGED, {"s1": ("d1", "", None), "s2": ("d2", "", None)})
+        btasks = [(q, [DAMAGED[(k + 1) % len(DAMAGED)]], 1) for k, q in enumerate(DAMAGED)]
+        if thorough:
+            btasks = split_tasks(btasks, bref, thorough, "full", per_task=3000)
+        for r in common.pmap(ctx, _worker, btasks, b, "full", setup=setup, extra={"ref": bref, "inputs": bins_, "voc": "full", "thorough": thorough, "light": not thorough}, timeout=120):
+            ctx.count("histories", r["histories"])
+            ctx.count("histories_damaged_input", r["histories"])
+            ctx.count("api_steps", r["steps"])
+            ALLSTATES.update(r["states"])
+            for key, what, case in r["bad"]:
+                case["files"] = [bad_path, bad_path]
+                case["damaged"] = True
                 ctx.violation(key, what, case)
     ctx.sample({"query": CORE[2], "executions": ["A on s1", "A on s1", "A on s2"], "history": "E0 P0 E1 P1 P0 D0 P1 P1 P1 D1 E2 P2 ... D2",
                 "oracle": "k-th pull of each execution = k-th result of a fresh parse-and-run"})
